@@ -43,6 +43,11 @@ def recovery_rules(ctx, rep, prefix: str, classes: list[str]) -> None:
         cuts = [c for c in A.calls(inner.node, nested=True) if isinstance(c.func, ast.Attribute) and c.func.attr in ("narrow", "view", "__getitem__", "select", "split")]
         wrong = [c for c in cuts if c.func.attr == "narrow" and _root_name(c.func.value) != blk]
         leaks = [n for n in ast.walk(inner.node) if isinstance(n, ast.Name) and n.id == outer_shard and outer_shard != blk]
+        # every recursion level collects its own pieces: the helper never appends to / extends a list of the enclosing call
+        own = set(inner.params) | {n.id for n in A.walk_no_nested(inner.node) if isinstance(n, ast.Name) and isinstance(n.ctx, ast.Store)}
+        shared = [c for c in A.calls(inner.node) if isinstance(c.func, ast.Attribute) and c.func.attr in ("append", "extend", "insert", "__iadd__") and isinstance(c.func.value, ast.Name) and c.func.value.id not in own]
+        shared += [n for n in A.walk_no_nested(inner.node) if isinstance(n, ast.AugAssign) and isinstance(n.target, ast.Name) and n.target.id not in own]
+        rep.ob(f"{prefix}.1", f"accumulators-are-per-level:{ci.name}", not shared, inner.loc(shared[0] if shared else None), "the recursive helper accumulates into lists it creates itself" + (f"; `{ast.unparse(shared[0])[:70]}` mutates a list of the enclosing scope, shared by all recursion levels: pieces of a nested level are emitted again by its ancestors" if shared else ""), sample=True)
         rep.ob(f"{prefix}.1", f"coordinates:{ci.name}:narrow-on-the-current-block", bool(cuts) and not wrong and not leaks, inner.loc(wrong[0] if wrong else (leaks[0] if leaks else None)), f"{len(cuts)} narrow/view call(s) in the recursive helper: each narrows `{blk}` (offsets are block-relative)" + (f"; `{ast.unparse(wrong[0])[:80]}` narrows something else" if wrong else "") + (f"; the helper refers to the enclosing routine's `{outer_shard}`" if leaks else ""), sample=True)
         # ---- .1 views only
         ret = set()
